@@ -270,6 +270,9 @@ class IpToPytorch(Probe):
 
 from contracts.c11 import InitCopies          # BaseAlgorithm.__init__: deep copy of the settings' parameters, settings untouched
 UNITS = [TrajectoryOnClone(), PriorTrajectoryOnClone(), McmcPersonalizeOnClone(), TerminateLeavesNothing(), ScipyPerIndividualClones(), InitCopies()]
+# simulate's constructor on table-driven designs leaves the caller's table as it was (contract of C18, verified in its own context)
+from contracts import c18 as _c18
+UNITS += [foreign(_c18.SimInitTable(), "c18")]
 CALLEES = [Probe(STATE + ".clone", "clone", new_clone), Probe(STATE + ".__setitem__", "set"), Probe(STATE + ".__getitem__", "get", read_value),
            Probe(STATE + ".put_individual_latent_variables", "put_individual"), Probe(STATE + ".put_population_latent_variables", "put_population"),
            Probe(MODEL + ".put_data_variables", "put_data"), Probe(MODEL + ".reset_data_variables", "reset_data"),
